@@ -6,20 +6,10 @@ From Murex Require Export Base.Outcome Base.Bytes Base.CheckLib Model.Expr Model
 (* what the harness saw: kind 0 = a value, 1 = clean error, 2 = panic, 3 = hang,
    4 = a value of a type outside the model *)
 Record obs := { o_kind : N; o_val : value }.
-Record case := { c_toks : list ptok; c_obs : obs }.
+Record case := { c_toks : list ptok; c_orc : oracles; c_obs : obs }.
 
-(* floats are compared by bit pattern (NaN as one class): the harness prints
-   the float64 exactly, +0 and -0 are different, NaN = NaN *)
-Definition class_code (f : float) : N :=
-  match PrimFloat.classify f with
-  | PNormal => 1 | NNormal => 2 | PSubn => 3 | NSubn => 4
-  | PZero => 5 | NZero => 6 | PInf => 7 | NInf => 8 | NaN => 9
-  end%N.
-
-Definition same_float (a b : float) : bool :=
-  N.eqb (class_code a) (class_code b) &&
-  (N.eqb (class_code a) 9 || PrimFloat.eqb a b).
-
+(* floats are compared by bit pattern (Model.Expr.same_float: class + eqb, NaN as one
+   class): the harness prints the float64 exactly, +0 and -0 differ, NaN = NaN *)
 Definition value_eqb (a b : value) : bool :=
   match a, b with
   | VNum x, VNum y => same_float x y
@@ -43,55 +33,88 @@ Definition obs_of (r : Outcome value) : obs :=
 
 (* correspondence: the fold-pass machine with the tables regenerated from the
    Go source predicts value (exactly) or error kind *)
-Definition agree (c : case) : bool := obs_eqb (obs_of (eval_expr (c_toks c))) (c_obs c).
+Definition agree (c : case) : bool := obs_eqb (obs_of (eval_expr (c_orc c) (c_toks c))) (c_obs c).
 
 (* ---- the property, written from its text ----
    numbers: IEEE-754 binary64 + - * / ; comparisons yield booleans; equal numbers
-   compare equal however written (they are the same float64); strings compare
-   in byte order; booleans can be tested for equality. Everything else is
-   outside C06 (None). *)
+   compare equal however they are written (they are the same float64); strings
+   compare in byte order; booleans can be tested for equality.
+   Mixed comparisons (murex's documented non-strict conversion): a number against
+   a string that reads as a number (strconv.ParseFloat after trimming; observed
+   table) compares numerically, against any other string it compares the
+   number's printed text (FloatToString; observed table) with the string in
+   byte order; a number against a boolean takes true = 1, false = 0.
+   Everything else is outside C06 (None). *)
 Open Scope float_scope.
 
-Definition spec_apply (o : sym) (a b : value) : option value :=
+Definition spec_pair (orc : oracles) (a b : value) : option cmp_pair :=
   match a, b with
-  | VNum x, VNum y =>
-    match o with
-    | Mul => Some (VNum (x * y)) | Div => Some (VNum (x / y))
-    | Add => Some (VNum (x + y)) | Sub => Some (VNum (x - y))
-    | Lt => Some (VBool (x <? y)) | Le => Some (VBool (x <=? y))
-    | Gt => Some (VBool (y <? x)) | Ge => Some (VBool (y <=? x))
-    | Eq => Some (VBool (x =? y)) | Ne => Some (VBool (negb (x =? y)))
-    | _ => None
+  | VNum x, VNum y => Some (CF x y)
+  | VStr s, VStr t => Some (CS s t)
+  | VBool x, VBool y => Some (CB x y)
+  | VNum x, VBool y => Some (CF x (if y then 1 else 0))
+  | VBool x, VNum y => Some (CF (if x then 1 else 0) y)
+  | VNum x, VStr s =>
+    match lookup_parse (or_parse orc) s with
+    | Some (Some y) => Some (CF x y)
+    | Some None => match lookup_fmt (or_fmt orc) x with Some t => Some (CS t s) | None => None end
+    | None => None
     end
-  | VStr s, VStr t =>
-    match o with
-    | Lt => Some (VBool (bytes_ltb s t)) | Le => Some (VBool (negb (bytes_ltb t s)))
-    | Gt => Some (VBool (bytes_ltb t s)) | Ge => Some (VBool (negb (bytes_ltb s t)))
-    | Eq => Some (VBool (bytes_eqb s t)) | Ne => Some (VBool (negb (bytes_eqb s t)))
-    | _ => None
-    end
-  | VBool x, VBool y =>
-    match o with
-    | Eq => Some (VBool (Bool.eqb x y)) | Ne => Some (VBool (negb (Bool.eqb x y)))
-    | _ => None
+  | VStr s, VNum y =>
+    match lookup_parse (or_parse orc) s with
+    | Some (Some x) => Some (CF x y)
+    | Some None => match lookup_fmt (or_fmt orc) y with Some t => Some (CS s t) | None => None end
+    | None => None
     end
   | _, _ => None
   end.
 
+Definition spec_cmp (ff : float -> float -> bool) (fs : bytes -> bytes -> bool)
+           (p : option cmp_pair) : option value :=
+  match p with
+  | Some (CF x y) => Some (VBool (ff x y))
+  | Some (CS s t) => Some (VBool (fs s t))
+  | _ => None
+  end.
+
+Definition spec_eq (neg : bool) (p : option cmp_pair) : option value :=
+  match p with
+  | Some (CF x y) => Some (VBool (if neg then negb (x =? y) else (x =? y)))
+  | Some (CS s t) => Some (VBool (if neg then negb (bytes_eqb s t) else bytes_eqb s t))
+  | Some (CB x y) => Some (VBool (if neg then negb (Bool.eqb x y) else Bool.eqb x y))
+  | _ => None
+  end.
+
+Definition spec_arith (f : float -> float -> float) (a b : value) : option value :=
+  match a, b with VNum x, VNum y => Some (VNum (f x y)) | _, _ => None end.
+
+Definition spec_apply (orc : oracles) (o : sym) (a b : value) : option value :=
+  match o with
+  | Mul => spec_arith PrimFloat.mul a b | Div => spec_arith PrimFloat.div a b
+  | Add => spec_arith PrimFloat.add a b | Sub => spec_arith PrimFloat.sub a b
+  | Lt => spec_cmp PrimFloat.ltb bytes_ltb (spec_pair orc a b)
+  | Le => spec_cmp PrimFloat.leb (fun s t => negb (bytes_ltb t s)) (spec_pair orc a b)
+  | Gt => spec_cmp (fun x y => y <? x) (fun s t => bytes_ltb t s) (spec_pair orc a b)
+  | Ge => spec_cmp (fun x y => y <=? x) (fun s t => negb (bytes_ltb s t)) (spec_pair orc a b)
+  | Eq => spec_eq false (spec_pair orc a b)
+  | Ne => spec_eq true (spec_pair orc a b)
+  | _ => None
+  end.
+
 (* expected value of a token list under textbook precedence, if the property speaks about it *)
-Definition reference (ts : list ptok) : option value :=
+Definition reference (orc : oracles) (ts : list ptok) : option value :=
   match parse_expr ts with
-  | Some t => eval_top spec_apply t
+  | Some t => eval_top (spec_apply orc) t
   | None => None
   end.
 
-Definition spec_obs (ts : list ptok) (o : obs) : bool :=
-  match reference ts with
+Definition spec_obs (orc : oracles) (ts : list ptok) (o : obs) : bool :=
+  match reference orc ts with
   | Some v => obs_eqb {| o_kind := 0; o_val := v |} o
   | None => true
   end.
 
-Definition spec_ok (c : case) : bool := spec_obs (c_toks c) (c_obs c).
+Definition spec_ok (c : case) : bool := spec_obs (c_orc c) (c_toks c) (c_obs c).
 
 (* no known finding listed for C06 *)
 Definition classify (c : case) : N := 0%N.
